@@ -32,9 +32,9 @@ CLAIMS["C10"] = dict(
     technique="Lean 4 proof (printer vs Python grammar round trip, full expression language) + regenerated tables + CPython-validated spec",
     design="§5 C10")
 CLAIMS["C20"] = dict(
-    text="Unbounded Lean theorems on the model of Name/TrueName::is_superset_of over an arbitrary variant relation (hence every class table and every type depth): member-wise characterisation, union<=U iff each member, order independence of stored members, and the nullable rules (T? never <= T, None <= T?, T <= T? when variants relate). "
+    text="Unbounded Lean theorems on the model of Name/TrueName::is_superset_of over an arbitrary variant relation (hence every class table and every type depth): member-wise characterisation, union<=U iff each member, order independence of stored members, and the nullable rules (T? never <= T, None <= T?, T <= T? when variants relate); reflexivity and transitivity lift from the variant relation to every nullable variant and every union of any size (nameSup_refl, nameSup_trans); forming unions is commutative, idempotent and associative on the set of members for names without a None member (union_comm/idem/assoc_partial). "
          "The class-table recursion (Context::class with generic substitution, has_parent for names and string names) is an executable Lean model tied by an exhaustive correspondence over the property's finite universe on the class table dumped from the real Context; reflexivity, transitivity over all triples, Any-top, ancestors/unrelated and union laws are decided exhaustively on the implementation's answers over that universe.",
-    note="Proved for all inputs: Name/TrueName layers. Exhaustive over the finite universe (as the property quantifies), not proved for arbitrary tables: reflexivity/transitivity/ancestor laws of the class-table recursion. Function types: reflexivity only.",
+    note="Proved for all inputs: Name/TrueName layers. Exhaustive over the finite universe (as the property quantifies), not proved for arbitrary tables: reflexivity/transitivity/ancestor laws of the class-table recursion (the hypotheses of the lifting theorems), the None-folding branch of Name::union, and the end-to-end agreement of unify_type with the relation (15 000 programs). Function types: reflexivity only.",
     technique="Lean 4 proof over name-lattice model + exhaustive correspondence/law check on the finite universe",
     design="§5 C20")
 CLAIMS["C01"] = dict(
